@@ -803,6 +803,7 @@ func main() {
 				// the message handler's gate: first statements check PermChangeTxFee before the keeper call
 				if rel == "x/gov/keeper/msg_server.go" && fd.Name.Name == "SetNetworkProperties" {
 					seenGate := false
+					wrote := false
 					for _, st := range fd.Body.List {
 						txt := normalize(src(st))
 						if m := regexp.MustCompile(`^isAllowed := CheckIfAllowedPermission\(ctx, k\.keeper, msg\.Proposer, types\.(\w+)\)$`).FindStringSubmatch(txt); m != nil {
@@ -815,7 +816,16 @@ func main() {
 						}
 						if strings.Contains(txt, "k.keeper.SetNetworkProperties(") {
 							gateOK = seenGate
-							break
+							wrote = true
+							continue
+						}
+						// anything that looks like a guard AFTER the write compares the new record with itself
+						if wrote && (strings.Contains(txt, "EnsureOldUniqueKeysNotRemoved") || strings.Contains(txt, "EnsureUniqueKeys") || strings.Contains(txt, "CheckIfAllowedPermission")) {
+							genErrors = append(genErrors, "msg server SetNetworkProperties: a guard runs after the record was written")
+							continue
+						}
+						if wrote {
+							continue
 						}
 						// optional guard of the unique-keys list (same two guards as SetNetworkProperty), pinned shape
 						if strings.Contains(txt, "EnsureOldUniqueKeysNotRemoved") || strings.Contains(txt, "EnsureUniqueKeys") {
@@ -888,7 +898,8 @@ func main() {
 		f    *ast.File
 		name string
 	}
-	hs := []hp{{ut, "BoolToInt"}, {ut, "IntToBool"}, {ir, "FormalizeIdentityRecordKey"}, {ir, "ValidateIdentityRecordKey"}, {kp, "EnsureOldUniqueKeysNotRemoved"}, {kp, "EnsureUniqueKeys"}}
+	msf := parseFile(*repo + "/x/gov/keeper/msg_server.go")
+	hs := []hp{{msf, "SetNetworkProperties"}, {ut, "BoolToInt"}, {ut, "IntToBool"}, {ir, "FormalizeIdentityRecordKey"}, {ir, "ValidateIdentityRecordKey"}, {kp, "EnsureOldUniqueKeysNotRemoved"}, {kp, "EnsureUniqueKeys"}}
 	for i, h := range hs {
 		fd := findFunc(h.f, h.name)
 		sum := "missing"
